@@ -549,7 +549,44 @@ def h_generatedates(case):
     return {'res': [o(fut), o(past)]}
 
 
+_ADDMOD_WORDS = {'E': '\u65e5', 'b': '\u524d', 'a': None, 'u': None, 's': '\u4ece', 'x': None, '=': '=', ' ': ' ', 'o': 'x'}
+_ADDMOD_PAIRS = {'aa': '\u4e4b\u540e', 'uu': '\u76f4\u5230', 'xx': '\u4ee5\u6765'}
+
+
+def h_addmod(case):
+    """ChineseMergedExtractor.add_mod on constructed entities (advisory binding of AddMod.tla): the model's stand-in
+    words are replaced by the real words of the same length, so offsets coincide."""
+    global _ZHX
+    try:
+        _ZHX
+    except NameError:
+        from recognizers_date_time.date_time.chinese.merged_extractor import ChineseMergedExtractor
+        from recognizers_date_time.date_time.utilities import DateTimeOptions
+        _ZHX = ChineseMergedExtractor(DateTimeOptions.NONE)
+    from recognizers_text.extractor import ExtractResult
+    m = case['src']
+    real = ''
+    i = 0
+    while i < len(m):
+        if m[i:i + 2] in _ADDMOD_PAIRS:
+            real += _ADDMOD_PAIRS[m[i:i + 2]]
+            i += 2
+        else:
+            real += _ADDMOD_WORDS[m[i]]
+            i += 1
+    assert len(real) == len(m)
+    ers = []
+    for c in case['ents']:
+        x = ExtractResult()
+        x.start, x.length, x.text, x.type, x.data = c['start'], c['length'], real[c['start']:c['start'] + c['length']], 'date', None
+        ers.append(x)
+    _ZHX.add_mod(ers, real)
+    # back to the model's alphabet: compare start, length and whether text is the slice it points at
+    return {'out': [[r.start, r.length, r.text == real[max(r.start, 0):max(r.start, 0) + r.length] and r.start >= 0] for r in ers]}
+
+
 _HANDLERS = {
+    'addmod': h_addmod,
     'generatedates': h_generatedates,
     'selectcands': h_selectcands,
     'choicematch': h_choicematch,
